@@ -23,6 +23,9 @@ LEAN_TARGETS = ['CfVerif.Props.C09']
 PROPS_MODULES = ['CfVerif.Props.C09']
 DRIVER = 'Driver/C09.lean'
 REQUIRED_THEOREMS = ['CfVerif.C09.matcher_conditions', 'CfVerif.C09.matcher_groups', 'CfVerif.C09.matcher_partition', 'CfVerif.C09.group_contents',
+                     'CfVerif.C09.linking_outcome', 'CfVerif.C09.linking_iff', 'CfVerif.C09.unlinked_rejected', 'CfVerif.C09.estimate_outcome',
+                     'CfVerif.C09.layout_length', 'CfVerif.C09.bsmap_sorted', 'CfVerif.C09.sparsity_columns', 'CfVerif.C09.sparsity_rows',
+                     'CfVerif.C09.residual_row_reads', 'CfVerif.C09.sparsity_covers_dependencies',
                      'CfVerif.C09.ippe_rotations_proper', 'CfVerif.C09.ippe_axes', 'CfVerif.C09.ippe_vec_roundtrip', 'CfVerif.C09.ippe_mat_roundtrip']
 TRUSTED = ['harness/corr/c09.py extractor + correspondence']
 ASSUMPTIONS = []
